@@ -15,6 +15,9 @@ for name in sorted(os.listdir(os.path.join(HERE, "seeded"))):
         continue
     meta = json.load(open(os.path.join(d, "meta.json")))
     prop = meta["property"]
+    if meta.get("superseded"):
+        print("%-45s superseded (see meta.json)" % name, flush=True)
+        continue
     r = subprocess.run([sys.executable, os.path.join(HERE, "tools", "mutate.py"), prop, "--tier", tier, "--patch", os.path.join(d, "patch.diff")], capture_output=True, text=True)
     out = r.stdout + r.stderr
     keys = sorted(set(re.findall(r"violation key=([^:]+):", out)))
